@@ -23,5 +23,5 @@ CHECKS=$(python3 -c "import sys; print(','.join('\"%s\"'%x for x in ([sys.argv[1
 }
 J
 ( /verif/tools/confirm_seed.sh $DST $NAME > $DST/.confirm.log 2>&1; grep CONFIRM $DST/.confirm.log ) &
-python3 /verif/tools/selftest.py seeded/$NAME 2>&1 | tail -25
+python3 /verif/tools/selftest.py seeded/$NAME 2>&1 > $DST/.selftest.log; grep -oE "(ok  |FAIL) seeded[^ ]*|C[0-9]+ exit=[0-9] rules=\[[^]]*\]|ANALYSIS-BROKEN.*" $DST/.selftest.log
 wait
